@@ -630,6 +630,13 @@ fn build_date_to(pair: Pair<Rule>, from: ds::Date) -> Result<ds::Date> {
 
                         if month == ds::Month::January {
                             if let Some(x) = year.as_mut() {
+                                if *x >= 9999 {
+                                    return Err(Error::Overflow {
+                                        value: format!("{}", u32::from(*x) + 1),
+                                        expected: "a year in 1900..=9999".to_string(),
+                                    });
+                                }
+
                                 *x += 1
                             }
                         }
